@@ -409,7 +409,16 @@ def job(cfg):
                 r1 = prove.prove(g, pc, A.side, tmo)
                 res['solver_s'] += r1['secs']
                 res['obl']['total'] += 1; res['obl'][r1['verdict']] += 1
-                if r1['verdict'] == 'sat': res['sat'].append({'label': label, 'model': r1['model']})
+                if r1['verdict'] == 'sat':
+                    model = r1['model']
+                    if z3.is_eq(g) and g.num_args() == 2 and g.arg(0).sort() == z3.RealSort():
+                        # prefer a counterexample with a clear margin (the replay compares floating-point results with a tolerance)
+                        l_, r_ = g.arg(0), g.arg(1)
+                        ab = lambda t: z3.If(t >= 0, t, -t)
+                        far = ab(l_ - r_) > (ab(l_) + ab(r_))/1000 + z3.RealVal('1/1000')
+                        v2, m2, _ = sym.check(pc + list(A.side) + [far], tmo, want_model=True)
+                        if v2 == 'sat': model = sym.model_to_dict(m2)
+                    res['sat'].append({'label': label, 'model': model})
                 elif r1['verdict'] == 'unknown': res['unknown'].append(label)
         if res['sample'] is None:
             res['sample'] = {'cfg': cfg, 'n_obligations': len(obl), 'first': str(obl[0][0]),
